@@ -328,7 +328,7 @@ def run(run):
                     "Call rejected by Trace_Purity clause %s" % clause)
     run.sample({"component": meta[5][0].name, "event": evs[5]})
     run.sample({"component": meta[len(evs) // 2][0].name, "event": evs[len(evs) // 2]})
-    if not mism and not run.only:
+    if not run.only and not [m for m in mism if m[1] <= 40]:        # the self-test slice (the first 40 events) was accepted
         def corrupt(ev2):
             i = next(i for i, e in enumerate(ev2) if e["ev"] == "Call" and e["layout"] != "single" and len(e["results"]) >= 2)
             ev2[i]["results"] = [ev2[i]["results"][0] + 50] + ev2[i]["results"][1:]
